@@ -2,6 +2,7 @@ package mon
 
 import (
 	"fmt"
+	"sort"
 
 	"golang.org/x/net/html"
 	"math/rand"
@@ -24,7 +25,7 @@ type wnNode struct {
 	text   string
 	attrs  [][2]string
 	kids   []*wnNode
-	selfCl bool // `<br/>` syntax (void elements only)
+	selfCl bool // `<br/>` syntax (void elements; non-void elements directly inside svg/math)
 }
 
 type wnMarker struct {
@@ -71,6 +72,15 @@ func (e *Env) category(name string) string {
 
 // wnTree draws a well-nested forest.
 func wnTree(r *rand.Rand, e *Env, names []string, depth, maxDepth, maxKids int, mk *int) []*wnNode {
+	return wnTreeIn(r, e, names, depth, maxDepth, maxKids, mk, "")
+}
+
+// foreignBreakout: HTML element names that end foreign content when they appear inside svg/math.
+var foreignBreakout = map[string]bool{"b": true, "big": true, "blockquote": true, "body": true, "br": true, "center": true, "code": true, "dd": true, "div": true, "dl": true, "dt": true, "em": true, "embed": true,
+	"h1": true, "h2": true, "h3": true, "h4": true, "h5": true, "h6": true, "head": true, "hr": true, "i": true, "img": true, "li": true, "listing": true, "menu": true, "meta": true, "nobr": true, "ol": true, "p": true, "pre": true,
+	"ruby": true, "s": true, "small": true, "span": true, "strong": true, "strike": true, "sub": true, "sup": true, "table": true, "tt": true, "u": true, "ul": true, "var": true, "font": true}
+
+func wnTreeIn(r *rand.Rand, e *Env, names []string, depth, maxDepth, maxKids int, mk *int, parent string) []*wnNode {
 	n := 1 + r.Intn(maxKids)
 	var out []*wnNode
 	for i := 0; i < n; i++ {
@@ -80,6 +90,17 @@ func wnTree(r *rand.Rand, e *Env, names []string, depth, maxDepth, maxKids int, 
 			continue
 		}
 		name := names[r.Intn(len(names))]
+		if (parent == "svg" || parent == "math") && r.Intn(2) == 0 {
+			// children that make sense in foreign content, skip-content names among them
+			fc := []string{"g", "path", "a", "circle", "mi", "mtext", "object", "nostyle", "frameset", "my-x", "x-foo", "desc", "use", "svg"}
+			for n := range e.Spec.Skip {
+				if !wnExclude[n] && !rawTextNames[n] && !spec.IsScriptStyle(n) {
+					fc = append(fc, n)
+				}
+			}
+			sort.Strings(fc)
+			name = fc[r.Intn(len(fc))]
+		}
 		nd := &wnNode{name: name}
 		if r.Intn(2) == 0 {
 			nd.attrs = e.Attrs(r, name)
@@ -87,13 +108,17 @@ func wnTree(r *rand.Rand, e *Env, names []string, depth, maxDepth, maxKids int, 
 		switch {
 		case oracle.Void[name]:
 			nd.selfCl = r.Intn(3) == 0
+		case (parent == "svg" || parent == "math") && !rawTextNames[name] && !spec.IsScriptStyle(name) && !foreignBreakout[name] && r.Intn(3) == 0:
+			// directly inside svg/math the self-closing syntax is real: <g/> is a complete, empty element
+			// (not for raw-text names: the tokenizer alone still reads what follows them as raw text)
+			nd.selfCl = true
 		case rawTextNames[name] || spec.IsScriptStyle(name):
 			if r.Intn(4) > 0 { // sometimes an empty body: <script src=x></script>
 				*mk++
 				nd.kids = []*wnNode{{text: wnMarkerText(r, *mk)}}
 			}
 		case depth < maxDepth && r.Intn(4) > 0:
-			nd.kids = wnTree(r, e, names, depth+1, maxDepth, maxKids, mk)
+			nd.kids = wnTreeIn(r, e, names, depth+1, maxDepth, maxKids, mk, name)
 		}
 		out = append(out, nd)
 	}
@@ -107,15 +132,7 @@ func wnMarkerText(r *rand.Rand, k int) string {
 	if r.Intn(5) > 0 {
 		return fmt.Sprintf("zqmk%06d", k)
 	}
-	b := []byte{'\f'}
-	for i := 19; i >= 0; i-- {
-		if k>>uint(i)&1 == 1 {
-			b = append(b, '\t')
-		} else {
-			b = append(b, '\n')
-		}
-	}
-	return string(append(b, '\f'))
+	return wsMarker(k)
 }
 
 func wnNames(e *Env) []string {
@@ -131,7 +148,7 @@ func wnNames(e *Env) []string {
 			out = append(out, n, n)
 		}
 	}
-	out = append(out, "br", "img", "hr", "input", "frame", "object", "frameset", "noscript", "iframe", "title", "my-x", "x-foo", "a", "a", "b", "script", "style", "script", "style")
+	out = append(out, "br", "img", "hr", "input", "frame", "object", "frameset", "noscript", "iframe", "title", "my-x", "x-foo", "a", "a", "b", "script", "style", "script", "style", "svg", "svg", "svg", "math", "math", "svg")
 	return out
 }
 
@@ -159,7 +176,10 @@ func (e *Env) wnRender(r *rand.Rand, forest []*wnNode, noise int) wnDoc {
 			}
 			g := &gen.Node{Name: n.name, Attrs: n.attrs, SelfCl: n.selfCl, NoEnd: true}
 			b.WriteString(gen.Serialize(r, []*gen.Node{g}, noise))
-			if oracle.Void[n.name] {
+			if oracle.Void[n.name] || n.selfCl {
+				if n.selfCl && !oracle.Void[n.name] {
+					d.feat["self-closed-foreign:"+cat] = true
+				}
 				continue
 			}
 			childInside := inside || cat == "skip"
@@ -225,7 +245,7 @@ func c08Judge(cs *core.Case, env *Env, d *wnDoc, out string, lc core.LocalCounts
 	text := oracle.Text(oracle.Tokens(out))
 	for _, m := range d.markers {
 		present := strings.Contains(text, m.m)
-		if m.m[0] == '\f' {
+		if isWsMarker(m.m) {
 			lc["whitespace_only_markers_checked"]++
 		}
 		if m.inside {
@@ -246,6 +266,9 @@ func c08Judge(cs *core.Case, env *Env, d *wnDoc, out string, lc core.LocalCounts
 		lc["documents_with_skipped_region"]++
 	}
 	for f := range d.feat {
+		if strings.HasPrefix(f, "self-closed-foreign:") {
+			lc["docs:"+f]++
+		}
 		if strings.HasPrefix(f, "in-skip:") {
 			lc["docs:"+f]++
 		}
